@@ -177,6 +177,9 @@ class GuardWalk:
         self.local_funcs: Dict[str, ast.FunctionDef] = {}
         self.params = [a.arg for a in (fn_node.args.posonlyargs + fn_node.args.args
                                        + fn_node.args.kwonlyargs)]
+        for extra in (fn_node.args.vararg, fn_node.args.kwarg):
+            if extra is not None:
+                self.params.append(extra.arg)
         self._stmt: Optional[ast.stmt] = None
         self._try: Tuple[str, ...] = ()
         body = fn_node.body
